@@ -336,6 +336,47 @@ fn clock_case<K: Kit>(sc: &Scenario, goal_rng: bool, budget: usize, rep: &mut Re
             (sampler_trace::<K>(&rig), path, nodes)
         })
     };
+    // Where a call is cut must not matter either: N iterations in one call against the same N iterations
+    // cut into two calls after k of them (every k of a small lattice, odd and even): same trees, bit for
+    // bit, and the same sampler trace - "time only affects how many iterations complete".
+    if !sc.params.pk.eq(&crate::drv::Pk::Prm) {
+        let split_run = |cuts: &[usize]| {
+            guarded(|| {
+                let mut rig = Rig::<K>::new(sc, true);
+                rig.pass_through();
+                rig.logging(true);
+                rig.goal_mode(if goal_rng { GoalMode::Rng } else { GoalMode::Cycle });
+                let mut all_timeout = true;
+                for &n in cuts {
+                    oxmpl::verif::clock_reset(1_000_000);
+                    if rig.drv.solve(iters(n)).is_ok() {
+                        all_timeout = false;
+                        break;
+                    }
+                }
+                (all_timeout, rig.snapshot().key(), sampler_trace::<K>(&rig))
+            })
+        };
+        let n = budget.min(24);
+        if let Ok((true, key_one, trace_one)) = split_run(&[n]) {
+            for k in [1usize, 2, 3, n / 2, n / 2 + 1, n - 1] {
+                if k == 0 || k >= n {
+                    continue;
+                }
+                rep.count("evaluations", 1);
+                if let Ok((true, key_two, trace_two)) = split_run(&[k, n - k]) {
+                    rep.count("cut_call_comparisons", 1);
+                    if key_two != key_one || trace_two != trace_one {
+                        let pk = sc.params.pk;
+                        rep.violate(format!("C07|{}|depends-on-where-the-call-was-cut", pk.name()), format!("{n} iterations in one call and the same {n} iterations cut into two calls after {k} of them leave different trees (or ask the samplers differently): where the deadline fell changed a decision"), || {
+                            json!({"kind": "repro-clock", "prop": "C07", "scenario": sc.json(), "goal_sampler_uses_rng": goal_rng, "iterations": n, "cut_after": k})
+                        });
+                        return;
+                    }
+                }
+            }
+        }
+    }
     rep.count("clock_perturbation_cases", 1);
     rep.count("evaluations", 3);
     let (Ok(fast), Ok(mid), Ok(slow)) = (run(1_000_000), run(2_000_000), run(4_000_000)) else {
@@ -455,7 +496,7 @@ pub fn run(tier: &'static str) -> i32 {
             "getrandom / ThreadRng / RandomState are all fed by the harness's exported getrandom symbol (canary-checked at start)".into(),
             "equal logical-clock budgets stand for `equal sample counts` of the quantifier".into(),
         ],
-        must_be_positive: vec!["traces_validated", "histories", "clock_perturbation_cases", "clock_runs_with_fewer_iterations"],
+        must_be_positive: vec!["traces_validated", "histories", "clock_perturbation_cases", "clock_runs_with_fewer_iterations", "cut_call_comparisons"],
     };
     finish(&meta, rep, t0)
 }
